@@ -198,7 +198,7 @@ package render
 //@ typeinv render.TagNode: true
 //@ typeinv render.BlockNode: true
 //@ typeinv render.TextNode: true
-//@ typeinv render.ObjectNode: true
+//@ typeinv render.ObjectNode: self.expr != nil
 
 //@ func (render.invalidLocation).SourceLocation
 //@ pure
@@ -467,3 +467,33 @@ package render
 //@ ensures clause: s.isClauseTag ==> result == (parent != nil && mapget(s.parents, parent.TagName()))
 //@ ensures end: !s.isClauseTag && s.isEndTag ==> result == (parent != nil && parent.TagName() == s.startName)
 //@ ensures start: !s.isClauseTag && !s.isEndTag ==> result
+
+// ---- {{ expr }} (C08, C07, C20) ---------------------------------------------------------
+// writeObject prints a value to the writer it is given and nowhere else; nil prints nothing.
+//@ func render.writeObject
+//@ unverified
+//@ props C08 C18 C20 C01
+//@ requires args: w != nil && (is(w, *render.trimWriter) ==> valid(as(w, *render.trimWriter)))
+//@ assigns writer
+//@ ensures onlyw: forall(x, "Val", x != w && x != wsink(w) && !newbuf(x) && !is(x, *render.trimWriter) ==> wtotal(x) == old(wtotal(x)))
+
+// The object's expression is evaluated once; an evaluation error, or a nil value in
+// strict-variables mode, is an error located at the object; otherwise exactly that value
+// is printed, and a write error is reported.
+//@ func (*render.ObjectNode).render
+//@ props C08 C07 C20 C01
+//@ panics nothing
+//@ requires args: valid(w) && valid(ctx)
+//@ ghost val Val = nil
+//@ ghost everr Val = nil
+//@ ghost werr Val = nil
+//@ ghost printed Bool = false
+//@ at call Evaluate #1: val = result0
+//@ at call Evaluate #1: everr = result1
+//@ at call writeObject #1 before assert printsValue: arg1 == val && everr == nil && !(val == nil && ctx.config.StrictVariables) && arg0 == box(w, *render.trimWriter)
+//@ at call writeObject #1: werr = result
+//@ at call writeObject #1: printed = true
+//@ ensures evalError: everr != nil ==> result != nil && !printed
+//@ ensures strict: everr == nil && val == nil && ctx.config.StrictVariables ==> result != nil && !printed
+//@ ensures prints: everr == nil && !(val == nil && ctx.config.StrictVariables) ==> printed && (result == nil) == (werr == nil)
+//@ ensures located: result != nil && everr != nil && !is(everr, parser.Error) ==> result.Cause() == everr && result.LineNumber() == old(n.Token.SourceLoc.LineNo) && result.Path() == old(n.Token.SourceLoc.Pathname)
